@@ -84,7 +84,9 @@ def run_case(al, case, n, maxlen, maxmem, route, memroute, zero_num=0):
         elif memroute == "gen":
             kw["memory"] = (x for x in items)
         elif memroute == "callable":
-            kw["memory"] = lambda size: [LinForm.sym(maxlen + 1 + j) for j in range(1, size + 1)]
+            # "a callable memory is asked for the needed size": the sizes it is called with are recorded
+            del ASKED[:]
+            kw["memory"] = lambda size: (ASKED.append(size), [LinForm.sym(maxlen + 1 + j) for j in range(1, size + 1)])[1]
         elif memroute == "longer":
             kw["memory"] = items + [LinForm.sym(maxlen + 1 + maxmem)] * 2
     # the input in one of its legal container forms (one-shot iterators included), cycled per call
@@ -99,6 +101,9 @@ def run_case(al, case, n, maxlen, maxmem, route, memroute, zero_num=0):
         return ("ValueError", [])
     except Exception as ex:
         return (type(ex).__name__ + ": " + str(ex)[:80], [])
+
+
+ASKED = []      # sizes the callable memory of the last run_case was asked for
 
 
 def same(out, exp_vecs, ns):
@@ -116,6 +121,15 @@ def case_key(case):
         return ",".join("%d/%d" % tuple(c["v"]) if c["k"] == "c" else "S" for c in v)
     return "b=[%s] a=[%s] mem=%s zero=%s adv=%d" % (cs(case["b"]), cs(case["a"]), case["mem"], case["zero"],
                                                   case["adv"])
+
+
+def lm_of(case):
+    """Filter.tla Lm: delay of the last non-zero denominator coefficient"""
+    la = 0
+    for i, c in enumerate(case["a"]):
+        if not (c["k"] == "c" and c["v"][0] == 0):
+            la = i + 1
+    return la - 1
 
 
 def noncausal(case):
@@ -156,6 +170,10 @@ def m2(ctx, al, module, cfg, maxlen, maxmem):
                     err, out = obs
                     ctx.count(1, nontrivial_key=(case_key(case), n) if n >= 2 else None)
                     ok = (err == st["err"]) and same(out, st["out"], ns)
+                    if memroute == "callable" and case["mem"] != "none" and err == "none" and ASKED != [lm_of(case)]:
+                        ctx.violation("C04:memory:callable-size",
+                                      {"case": case_key(case), "n": n, "route": route, "asked": list(ASKED),
+                                       "needed": lm_of(case)})
                     if nstates % 1201 == 0 and route == "zexpr":
                         ctx.sample({"case": case_key(case), "n": n, "route": route, "memory": memroute,
                                     "observed": [repr(o) for o in out]})
@@ -219,8 +237,10 @@ def m3(ctx, al, count, maxlen, maxmem):
                                                       "why": "output is not an exact linear form"})
             continue
         spec_case = dict(case, mem=("exact" if case["mem"] == "longer" else case["mem"]))
-        recs.append({"case": spec_case, "len": n, "err": err if err in ("none", "ValueError") else "other",
-                     "out": vecs})
+        rec = {"case": spec_case, "len": n, "err": err if err in ("none", "ValueError") else "other", "out": vecs}
+        if memroute == "callable" and case["mem"] != "none" and err == "none":
+            rec["asked"] = list(ASKED)
+        recs.append(rec)
         meta.append({"case": case_key(case), "n": n, "route": route, "memory": memroute, "err": err,
                      "observed": [repr(o) for o in out][:6]})
         ctx.count(1, nontrivial_key=("m3", len(recs)) if n >= 3 else None)
